@@ -33,6 +33,13 @@ var pagerFamilies = []pagerFamily{
 	{"file-dash", func(b string, k int) string { return fmt.Sprintf("%s/news/story-%d.html", b, k) }},
 	{"two-numbers", func(b string, k int) string { return fmt.Sprintf("%s/zine/%d/piece-%d", b, (k+1)/2, k) }},
 	{"query-multi", func(b string, k int) string { return fmt.Sprintf("%s/list?cat=%d&page=%d&sort=%d", b, 1+k%2, k, 2) }},
+	// a percent-escaped path segment (the page URL then has two spellings inside the library)
+	{"escaped-dir", func(b string, k int) string {
+		if k <= 1 {
+			return b + "/caf%C3%A9/story"
+		}
+		return fmt.Sprintf("%s/caf%%C3%%A9/story/%d", b, k)
+	}},
 	// the first page is the directory itself (page URL with a trailing slash), the others live below it
 	{"dir-sub-num", func(b string, k int) string {
 		if k <= 1 {
